@@ -571,6 +571,12 @@ class Resolver:
         p = self.prog
         if fi is None or fi.cls is None:
             return None
+        if isinstance(expr, ast.Name) and expr.id != fi.self_name:
+            # a local alias: `known_types = cls.attribute_types` ... `known_types[t]`
+            defs = self.local_defs(fi).get(expr.id, [])
+            if len(defs) == 1 and isinstance(defs[0], ast.Attribute):
+                return self._dict_values(defs[0], fi)
+            return None
         if isinstance(expr, ast.Attribute) and isinstance(expr.value, ast.Name) and expr.value.id == fi.self_name:
             v = fi.cls.lookup_attr(expr.attr)
             if isinstance(v, ast.Dict):
